@@ -60,6 +60,10 @@ type composableRunnable struct {
 	// only available when in Graph node
 	// if composableRunnable not in Graph node, this field would be nil
 	nodeInfo *nodeInfo
+
+	// only available when the runnable is a sub graph: validates the call options handed to it
+	// (and, recursively, to its own sub graphs) without running it
+	checkOption func(opts ...any) error
 }
 
 // nolint: byted_s_args_length_limit
